@@ -167,10 +167,12 @@ CLAIMED = {
              'correspondence); cap of 10000 raw embeddings is a guard.',
         technique='Coq soundness and completeness proofs (induction over the placement order; reader invariant) + vm_compute correspondence on exported molecule graphs'),
     'C02': dict(
-        text='Machine-checked proof (Coq), PARTIAL: finite theorem over the nine scheme files REGENERATED from /repo on every run and read by the Coq '
+        text='Machine-checked proof (Coq): finite theorem over the nine scheme files REGENERATED from /repo on every run and read by the Coq '
              'parser+reader (every pattern readable, remaps well-formed, chain-free, unique sources, no molecule prefix); for all schemes and molecule graphs: a '
              'decomposition is returned only if EVERY atom is hit by exactly one centre pattern, whose names it then carries, and an atom hit by '
-             'none or by several makes the call fail (assign_centres_unique / assign_centres_fails, invariant over the pattern list); the only failure is the pattern-match '
+             'none or by several makes the call fail (assign_centres_unique / assign_centres_fails, invariant over the pattern list); before the remaps '
+             'the count of a group name is the number of atoms contributing it; a correction descriptor is counted once per distinct atom set '
+             '(cover + pairwise distinct); remaps act as a linear substitution on dictionaries with unique keys for chain-free tables; the only failure is the pattern-match '
              'error and it happens exactly when centre assignment fails, dictionary counting is addition on the named entry. The model Graph/Scheme.v '
              'is the independent interpreter of the scheme file; its agreement with GetDescriptors on generated molecules of every scheme is '
              'decided by the correspondence on every run.',
